@@ -172,6 +172,24 @@ pub fn put_stream(out: &mut Vec<u8>, ops: &[WOp], block: usize, compress: bool) 
     out.push(0);
 }
 
+/// Like `put_stream` with compression, but every block is compressed even when the zstd frame is
+/// LONGER than the raw bytes (small or incompressible blocks): the layout does not require a
+/// compressed block to shrink.
+pub fn put_stream_always_compressed(out: &mut Vec<u8>, ops: &[WOp], block: usize) {
+    let mut data = Vec::new();
+    for op in ops {
+        put_op(&mut data, op);
+    }
+    for chunk in data.chunks(block.max(1)) {
+        let mut buf = vec![0u8; chunk.len() + 128];
+        let n = zstd::bulk::compress_to_buffer(chunk, &mut buf[..], 0).expect("zstd with room to spare");
+        out.push(1);
+        out.extend_from_slice(&(n as u16).to_le_bytes());
+        out.extend_from_slice(&buf[..n]);
+    }
+    out.push(0);
+}
+
 pub fn put_header(out: &mut Vec<u8>, tag: u8) {
     out.extend_from_slice(&45139u16.to_le_bytes());
     out.push(0);
